@@ -490,7 +490,7 @@ fn case(rng: &mut Rng, rep: &mut Report) {
 }
 
 pub fn run(tier: Tier, seed: u64) -> MonOut {
-    let n = tier.n(6_000, 600_000);
+    let n = tier.n(200_000, 8_000_000);
     let rep = par_cases(seed, n, |_i, rng, rep| case(rng, rep));
     MonOut {
         report: rep,
